@@ -27,18 +27,21 @@ def _oracle(field):
 
 def _case_term(l):
     p = l.split()
-    _, vec, cfgfile, b64set, ok, rest, n = p[:7]
-    blocks = p[7:]
+    _, vec, cfgfile, b64set, ok, rest, help_, n = p[:8]
+    blocks = p[8:]
     fos = []
     for i in range(int(n)):
-        kind, name, path, envhand, envobs, dflt, env, jfile, jb64, final, oracle = blocks[11 * i:11 * i + 11]
-        fos.append("{| fo_flag := {| fname := %s; fpath := %s; fkind := %s; fdef := %s |}; fo_envhand := %s; fo_envobs := %s; "
+        (kind, group, goname, tag, hname, hdef, bound, usage, init, envhand, envobs, env, jfile, jb64, final,
+         oracle) = blocks[16 * i:16 * i + 16]
+        fos.append("{| fo_kind := %s; fo_group := %s; fo_goname := %s; fo_tag := %s; fo_hname := %s; fo_hdef := %s; fo_bound := %s; "
+                   "fo_usage := %s; fo_init := %s; fo_envhand := %s; fo_envobs := %s; "
                    "fo_env := %s; fo_jfile := %s; fo_jb64 := %s; fo_final := %s; fo_oracle := %s |}" % (
-                       coq_bytes(name), coq_bytes(path), _KIND[kind], coq_bytes(dflt), coq_bytes(envhand), coq_bytes(envobs),
+                       _KIND[kind], coq_bytes(group), coq_bytes(goname), coq_bytes(tag), coq_bytes(hname), coq_bytes(hdef),
+                       "true" if bound == "1" else "false", coq_bytes(usage), coq_bytes(init), coq_bytes(envhand), coq_bytes(envobs),
                        _opt(env), _opt(jfile), _opt(jb64), _opt(final), _oracle(oracle)))
-    return "verdict_ok (check_case [%s] %s %s %s %s %s)" % (
+    return "verdict_ok (check_case [%s] %s %s %s %s %s %s)" % (
         ";\n     ".join(fos), _toks(vec), _opt(cfgfile), "true" if b64set == "1" else "false",
-        "true" if ok == "1" else "false", _toks(rest))
+        "true" if ok == "1" else "false", _toks(rest), "None" if help_ == "~" else ("(Some true)" if help_ == "1" else "(Some false)"))
 
 
 def c09_casesv(lines):
@@ -62,10 +65,13 @@ CFG = dict(
     casesv=c09_casesv,
     sig=c09_sig,
     coq_sample={"quick": 40, "thorough": 200},
-    rule=("two fixed struct types (27 fields: all nine kinds at top level, nested and nested two deep, both tag syntaxes; 11 fields "
-          "without tags); every field x every combination of (cli, env, JSON) mentioning it x JSON carrier (file via -config, "
+    rule=("three fixed struct types (27 fields: all nine kinds at top level, nested and nested two deep, both tag syntaxes; 11 fields "
+          "without tags; 10 fields with empty-name tags `,33,` `||def|` `|`, extra separators in the usage, an embedded struct, json tags "
+          "incl. renamed keys and \"-\"); the tag text, group path and Go name of every field are reported and split by the MODEL; every field x every combination of (cli, env, JSON) mentioning it x JSON carrier (file via -config, "
           "CFG_CONFIG_B64, both, none) with the other fields random; targeted shapes (env set but empty, cli/env text equal to the "
-          "default's text while JSON differs, explicit empty cli value); seeded random cases; decoy CFG_CONFIG / CFG_HELP variables; "
+          "default's text while JSON differs, explicit empty cli value); JSON \"\" for string/[]byte and JSON null (= not mentioned; for []byte = nil); "
+          "-help in several spellings with ShowUsage() observed; seeded random cases; decoy CFG_CONFIG / CFG_HELP variables; "
+          "STATS skipped = fields of Parses that failed on purpose (unparsable winning text, missing -config file): the property is conditional on success; "
           "each case is one NewFlagSet + Parse; non-trivial = distinct case lines"),
     trusted_base=[HARNESS_TB, EXTRACT_TB,
                   "encoding/json is not modelled: the JSON overlay enters as the map field -> value the harness wrote into the JSON document",
@@ -79,11 +85,13 @@ CFG["manifest"] = dict(
     text=("Proof: C09_priority — for every world, field list and argument vector, after a successful NewFlagSet+Parse of the model every "
           "flag holds the value of the highest-priority source mentioning it (cli text, else env text, else the JSON value of the file named "
           "by -config on the command line / else CFG_CONFIG_B64, else the tag default), texts going through the kind's Set with \"\" = zero "
-          "value; C09_sources_independent, C09_empty_is_zero, C09_table_wf (NewFlagSet's table is well-formed for C10), and the env-name laws "
+          "value; C09_sources_independent (oracles equal pointwise), C09_winning_text_unparsable_fails, C09_never_panics, C09_empty_is_zero, "
+          "C09_tag_syntax / C09_struct_recursion (byte-level model of parseStructFieldTag and the group recursion), "
+          "C09_table_wf (NewFlagSet's table is well-formed for C10), and the env-name laws "
           "C09_env_name_charset / _shape / C09_underscore_idempotent for the byte-for-byte model of strutil.Underscore. "
-          "Tie: the real code is run on thousands of Parses over two struct types covering every kind, nesting depth, tag syntax and source "
+          "Tie: the real code is run on thousands of Parses over three struct types covering every kind, nesting depth, tag syntax and source "
           "combination with both JSON carriers; every field's final value is compared with the priority rule's winner and with the model's "
-          "run; Flag.Env is compared with the model's Underscore."),
+          "run; Flag.Env, Flag.Usage, the flag-to-field binding and the initial value are compared with the model's tag split and Underscore."),
     note=("Trusted: Coq kernel; extraction + OCaml glue (vm_compute sample cross-check); Go harness; encoding/json, os, base64 (oracles). "
           "The model is hand-written and tied to the code differentially."),
     technique="Coq proof (invariants over the Parse pipeline, finite-map reasoning) + differential correspondence",
